@@ -89,7 +89,11 @@ def make_case(seed: int, tier: str, prop: str, opts=None) -> Dict[str, Any]:
     return {"ns": ns, "nd": nd, "max_connects": mc, "evenly": evenly, "helper": helper,
             "iterable": rng.choice(["list", "tuple", "generator"]),
             "mode": rng.choice(MODES), "rseed": rng.randrange(1 << 30),
-            "attrs": rng.choice([["a"], ["a", ["b", "c"]]])}
+            "attrs": rng.choice([["a"], ["a", ["b", "c"]]]),
+            # the caller's destination collection (its own list object, or a tuple) and a second
+            # call that passes the very same object again (e.g. PVs, then loads, onto the same buses)
+            "dest_iterable": rng.choice(["list", "list", "tuple"]),
+            "second_ns": rng.choice([None, None, rng.randint(0, 12)])}
 
 
 def run_case(case, prop) -> Dict[str, Any]:
@@ -107,6 +111,9 @@ def run_case(case, prop) -> Dict[str, Any]:
     viols = []
     ret = None
     exc = None
+    second = None
+    second_ret = None
+    mc_ = case["max_connects"]
     try:
         if case["helper"] == "many_to_one":
             # src_set is documented as an Iterable: a list, a tuple or a one-shot iterator
@@ -117,7 +124,14 @@ def run_case(case, prop) -> Dict[str, Any]:
             kw = {"evenly": case["evenly"]}
             if case["max_connects"] is not None:
                 kw["max_connects"] = case["max_connects"]
-            ret = mu.connect_randomly(w, src, list(dst), *attrs, **kw)
+            dst_user = list(dst) if case.get("dest_iterable", "list") == "list" else tuple(dst)
+            ret = mu.connect_randomly(w, src, dst_user, *attrs, **kw)
+            ns2 = case.get("second_ns")
+            if ns2 is not None:
+                if mc_ is not None and not case["evenly"]:
+                    ns2 = min(ns2, case["nd"] * mc_)
+                second = (RecWorld(), [Ent(f"t{i}") for i in range(ns2)])
+                second_ret = mu.connect_randomly(second[0], second[1], dst_user, *attrs, **kw)
     except Exception as e:  # noqa: BLE001
         exc = e
     finally:
@@ -135,7 +149,10 @@ def run_case(case, prop) -> Dict[str, Any]:
     feats = {"helper": case["helper"], "evenly": case["evenly"]}
     if exc is not None:
         out["aborted"] = 1
-        viols.append({"kind": "raised_on_valid_input", "features": dict(feats, exc=type(exc).__name__),
+        f_ = dict(feats, exc=type(exc).__name__)
+        if second is not None:
+            f_["second_call"] = True
+        viols.append({"kind": "raised_on_valid_input", "features": f_,
                       "detail": {"case": case, "error": repr(exc)[:200]}})
     else:
         out["completed"] = 1
@@ -169,7 +186,30 @@ def run_case(case, prop) -> Dict[str, Any]:
             if ret is None or set(ret) != set(counts):
                 viols.append({"kind": "returned_set_wrong", "features": feats,
                               "detail": {"case": case, "returned": repr(ret)[:200]}})
-    d = digest((case, [(repr(c[0]), repr(c[1])) for c in w.calls], repr(exc)))
+        if second is not None and case["helper"] == "randomly":
+            w2, src2 = second
+            st["second_call_same_destination_object"] = 1
+            counts2, per2 = {}, {}
+            for s_, d_, a_, kw_ in w2.calls:
+                per2[s_] = per2.get(s_, 0) + 1
+                counts2[d_] = counts2.get(d_, 0) + 1
+            f2 = dict(feats, second_call=True)
+            if any(per2.get(s_, 0) != 1 for s_ in src2) or len(w2.calls) != len(src2):
+                viols.append({"kind": "source_not_connected_exactly_once", "features": f2,
+                              "detail": {"case": case}})
+            if any(d_ not in dst for d_ in counts2):
+                viols.append({"kind": "connected_outside_destination_set", "features": f2, "detail": {"case": case}})
+            if case["evenly"]:
+                allc = [counts2.get(d_, 0) for d_ in dst]
+                if allc and max(allc) - min(allc) > 1:
+                    viols.append({"kind": "not_even", "features": f2, "detail": {"case": case, "counts": allc}})
+            elif mc is not None and counts2 and max(counts2.values()) > mc:
+                viols.append({"kind": "max_connects_exceeded", "features": f2, "detail": {"case": case}})
+            if second_ret is None or set(second_ret) != set(counts2):
+                viols.append({"kind": "returned_set_wrong", "features": f2,
+                              "detail": {"case": case, "returned": repr(second_ret)[:200]}})
+    d = digest((case, [(repr(c[0]), repr(c[1])) for c in w.calls],
+                [(repr(c[0]), repr(c[1])) for c in (second[0].calls if second else [])], repr(exc)))
     for v in viols:
         v["digest"] = d
         v["case"] = case
